@@ -12,3 +12,5 @@ for d in seeded/*/; do
   echo "$id violations=$nv with-replayed-input=$nr first=$first | $(echo "$out" | tail -1)"
 done
 git -C /repo status --short | head -3
+# evidence files written while a seeded change was applied describe that tree, not the repository: restore the committed ones
+git -C /verif checkout -- evidence 2>/dev/null
